@@ -57,7 +57,16 @@ func c18Opts(flags uint32) Opts {
 	case 2:
 		o.FontJSON = "{ this is not json"
 	default:
-		o.FontJSON = `{"defaultFontId":"F","fonts":{"F":{"widths":{"default":7," ":3},"maxLineLength":40,"numLines":2,"cursorOverlapWidth":5},"G":{"widths":{},"maxLineLength":0}}}`
+		switch (flags >> 12) & 3 {
+		case 0:
+			o.FontJSON = `{"defaultFontId":"F","fonts":{"F":{"widths":{"default":7," ":3},"maxLineLength":40,"numLines":2,"cursorOverlapWidth":5},"G":{"widths":{},"maxLineLength":0}}}`
+		case 1: // valid JSON, hostile numbers
+			o.FontJSON = `{"defaultFontId":"F","fonts":{"F":{"widths":{"default":-3," ":0,"a":100000},"maxLineLength":0,"numLines":0,"cursorOverlapWidth":-9},"":{"widths":null}}}`
+		case 2: // default font id that does not exist
+			o.FontJSON = `{"defaultFontId":"missing","fonts":{"F":{"widths":{"default":1},"maxLineLength":5,"numLines":1,"cursorOverlapWidth":99}}}`
+		default: // valid JSON of the wrong shape
+			o.FontJSON = `{"defaultFontId":"F","fonts":{}}`
+		}
 	}
 	switch (flags >> 7) & 3 {
 	case 0:
@@ -270,7 +279,7 @@ func genC18(t *rapid.T) *C18Case {
 	default:
 		src = genHostile(t)
 	}
-	return &C18Case{Src: src, Flags: rapid.Uint32Range(0, 1<<12-1).Draw(t, "flags")}
+	return &C18Case{Src: src, Flags: rapid.Uint32Range(0, 1<<14-1).Draw(t, "flags")}
 }
 
 // ---- corpus: every string literal of the pinned tests that looks like a program, README code blocks ----
@@ -325,7 +334,7 @@ func corpus() []string {
 
 func init() { register("C18", "TestC18_Robust", checkC18, c18Src) }
 
-const c18Rule = "inputs: token soup over a 110-word vocabulary (incl. NUL, U+FFFD, BOM, lone quotes/backticks, names imitating generated labels); valid generated whole files mutated by deleting/duplicating/swapping/replacing/inserting tokens and truncation at tokens and bytes; every string literal of the pinned tests and README code block (also truncated); hostile shapes (parentheses and blocks nested up to 300 deep, 400-fold repetitions, boundary multipliers, arbitrary unicode); 4096 option combinations (optimize, line markers, path, switches, font config present/absent/garbage/custom, default font, line length, command config). oracle: no panic, token budget not exceeded, error is a ParseError with 1<=start<=end<=lines, same in lint mode, lint accepts what normal accepts. non-trivial = accepted, or the error is located beyond the first token; distinct by (input, flags)"
+const c18Rule = "inputs: token soup over a 110-word vocabulary (incl. NUL, U+FFFD, BOM, lone quotes/backticks, names imitating generated labels); valid generated whole files mutated by deleting/duplicating/swapping/replacing/inserting tokens and truncation at tokens and bytes; every string literal of the pinned tests and README code block (also truncated); hostile shapes (parentheses and blocks nested up to 300 deep, 400-fold repetitions, boundary multipliers, arbitrary unicode); 16384 option combinations (optimize, line markers, path, switches, font config present/absent/garbage/custom/hostile numbers/missing default/empty, default font, line length, command config). oracle: no panic, token budget not exceeded, error is a ParseError with 1<=start<=end<=lines, same in lint mode, lint accepts what normal accepts. non-trivial = accepted, or the error is located beyond the first token; distinct by (input, flags)"
 
 func TestC18_Regress(t *testing.T) { runRegress(t, "C18") }
 
@@ -348,7 +357,7 @@ func FuzzC18(f *testing.F) {
 		f.Add(h, uint32(0))
 	}
 	f.Fuzz(func(t *testing.T, src string, flags uint32) {
-		c := &C18Case{Src: src, Flags: flags & (1<<12 - 1)}
+		c := &C18Case{Src: src, Flags: flags & (1<<14 - 1)}
 		if len(src) > 1<<16 {
 			return
 		}
